@@ -53,6 +53,13 @@ class HierarchyWalker:
         """Visit a `Module`.
         Primary method for most manipulations."""
 
+        # Modules shared by several parents are walked once.
+        # (Otherwise the work doubles with every level of a hierarchy of shared sub-modules.)
+        visited = self.__dict__.setdefault("_visited_modules", dict())
+        if visited.get(id(module), None) is module:
+            return module
+        visited[id(module)] = module
+
         # Step into each of the Module's instances.
         # Note that as we have already elaborated, it no longer has bundles.
         for inst in module.instances.values():
